@@ -442,9 +442,36 @@ def ev_reject_single(case, rec):
     ev_reject(case, rec)
 
 
+# --- two threads converting DIFFERENT angles at the same time ----------
+from gpmc import threads as _thr
+import numpy as _tnp
+import geodepy.constants as _tgc
+import geodepy.convert as _tgv
+import geodepy.geodesy as _tgg
+import geodepy.angles as _tga
+def _tk(v):
+    return repr(v)
+
+
+T_CALLS = {
+    'dec2hp': lambda: (lambda: _tga.dec2hp(-33.99999999999)),
+    'dec2hp_b': lambda: (lambda: _tga.dec2hp(121.99999999)),
+    'hp2dec': lambda: (lambda: _tga.hp2dec(121.5959999)),
+    'hp2dms': lambda: (lambda: _tk(_tga.hp2dms(-0.3015))),
+    'dec2dms': lambda: (lambda: _tk(_tga.dec2dms(144.00000000001))),
+    'dms_str': lambda: (lambda: _tk(_tga.DMSAngle('-37 57 3.7203').hp())),
+    'vec': lambda: (lambda: _tga.hp2dec_v(_tnp.array([2.01, -0.3, 123.44555]))),
+    'vec_b': lambda: (lambda: _tga.dec2hp_v(_tnp.array([2.0166666666666666, -0.5, 123.74875]))),
+    'obj_chain': lambda: (lambda: _tk(_tga.DDMAngle(-0, 30.25).dms().hpa().gona().deca())),
+}
+_tg, _te = _thr.make(T_CALLS, ['geodepy/angles.py'], 'angles:threads', quick=['dec2hp', 'dec2hp_b', 'hp2dec', 'hp2dms', 'vec', 'vec_b'],
+                     triple=('dec2hp', 'hp2dms', 'vec'))
+
+
 SUBCHECKS = [
     Sub('graph', gen, ev_single, chunk=6, floor=1000, envs=4),
     Sub('reject', gen_reject, ev_reject_single, chunk=1, floor=100, envs=2),
+    Sub('threads', _tg, _te, chunk=1, floor=3, poison=False),
 ]
 
 
